@@ -82,7 +82,8 @@ def obligations(r, tier, seed):
             run_one_iteration(k, shape)
         real = shape["pattern"].startswith("real")
         obs.append(Ob("C03/gauss-newton-step/%s" % shape["name"], ob, scope="shape-bounded", bound="shape " + shape["name"],
-                      funcs=FUNCS, solver="constrained", light=not has_se3(shape), tags=("real-edges",) if real else ()))
+                      funcs=FUNCS, solver="constrained", light=not has_se3(shape), tags=("real-edges",) if real else (),
+                      eager=(real and has_se3(shape))))
 
     # ---- internal: BaseEdge.calc_chi2_gradient_hessian, arity 1..3, every tuple of pose types (complete for custom edges)
     import itertools
